@@ -89,9 +89,13 @@ def check(seed):
     back = reg.transform((FrameID.MAP, "base_link"), p1, q1)
     if not (np.allclose(back[0], p, atol=1e-7) and close_q(back[1], q)):
         return "registry does not answer map->base_link with the inverse of base_link->map"
-    same = reg.transform(("map", FrameID.MAP), p)
-    if tuple(same) != tuple(p):
-        return "X->X changed its input"
+    for key in (("map", FrameID.MAP), ("MAP", FrameID.MAP), (FrameID.MAP, "Map"), ("BASE_LINK", "base_link")):
+        try:
+            same = reg.transform(key, p)
+        except Exception as ex:
+            return f"X->X with key {key} raised {type(ex).__name__}: {ex}"
+        if tuple(same) != tuple(p):
+            return f"X->X with key {key} changed its input"
     same2 = reg.transform((FrameID.MAP, FrameID.MAP), p, q)
     if tuple(same2[0]) != tuple(p) or same2[1] is not q:
         return "X->X (position, rotation) changed its input"
